@@ -630,9 +630,9 @@ def aten_hardtanh_backward(
 ) -> TensorType:
     """hardtanh_backward(Tensor grad_output, Tensor self, Scalar min_val, Scalar max_val) -> Tensor"""
 
-    max_mask = op.Where(op.Greater(self, max_val), 0.0, 1.0)
-    min_mask = op.Where(op.Less(self, min_val), 0.0, 1.0)
-    return op.Mul(op.Mul(grad_output, max_mask), min_mask)
+    # The gradient is zero outside the open interval (min_val, max_val), bounds included
+    outside = op.Or(op.LessOrEqual(self, min_val), op.GreaterOrEqual(self, max_val))
+    return op.Where(outside, op.CastLike(0.0, grad_output), grad_output)
 
 
 def aten_huber_loss(
